@@ -203,7 +203,7 @@ contract(A + "Action.child", props=["C02", "C01", "C04"],
 
 LOG_KEYS = "'timestamp', 'task_uuid', 'task_level', 'message_type'"
 contract(A + "Action.log", props=["C02", "C01", "C07", "C13"], shards=3,
-         types={"message_type": "Any", "fields": "dict[__eliot_logger__=role:ILogger;*=Any]"}, returns="none",
+         types={"message_type": "Any", "fields": "dict[__eliot_logger__?=role:ILogger;*=Any]"}, returns="none",
          ghosts={"R": "seqe", "L": "Any", "SER": "Any", "DOFF": "seqe"},
          snapshots={"ILogger.write#0": [("L", "box(self)"), ("SER", "box(serializer)")]},
          after={"ILogger.write#0": [("R", "R"), ("DOFF", "DOFF")]},
@@ -254,7 +254,7 @@ contract(A + "start_action", props=["C02", "C04", "C05", "C01", "C07", "C13"], t
              ("positions-elsewhere", "only_changed('_last_child', result, curact())", ["C02"])])
 
 contract(A + "log_message", props=["C02", "C04", "C05", "C01", "C07", "C08"],
-         types={"message_type": "Any", "fields": "dict[__eliot_logger__=role:ILogger;*=Any]"}, returns="none",
+         types={"message_type": "Any", "fields": "dict[__eliot_logger__?=role:ILogger;*=Any]"}, returns="none",
          ghosts={"R": "seqe", "E": "ev", "DOFF": "seqe"},
          after={"Action.log#0": [("R", "R"), ("E", "write_ev(L, fields, SER)"), ("DOFF", "DOFF")]},
          requires=[("current-ok", "cur_ok()"),
